@@ -52,13 +52,21 @@ def run(ctx):
     idm = repo.fn(CORE, 'EntityMeta._get_from_identity_map_'); g = cg.cfg(idm)
     adds = nodes_calling(g, lambda c: isinstance(c.func, ast.Attribute) and c.func.attr == 'add' and norm(c.func.value).endswith('.for_update'))
     asserts = [x for x in g.nodes if x.kind == 'stmt' and isinstance(x.ast, ast.Assert) and norm(x.ast.test).endswith('.in_transaction')]
-    fu = {t.id for t in g.nodes if t.kind == 'test' and norm(t.ast) == 'for_update'}
-    created = {t.id for t in g.nodes if t.kind == 'test' and norm(t.ast) == "status == 'created'"}
+    # decided by scenario, whatever way the tests are written (`if for_update:`, `if not for_update: return obj`, ...)
+    def lock_scen(fu_val, created_val):
+        def atom(text, node):
+            if isinstance(node, ast.Name) and node.id == 'for_update': return fu_val
+            if isinstance(node, ast.Compare) and len(node.ops) == 1 and isinstance(node.comparators[0], ast.Constant) and node.comparators[0].value == 'created' and dotted(node.left) == 'status':
+                if isinstance(node.ops[0], ast.Eq): return created_val
+                if isinstance(node.ops[0], ast.NotEq): return not created_val
+            return None
+        return scenario_edges(g, idm.node, atom, resolve=False)
+    plain = g.reach([g.entry], edge_ok=lock_scen(False, False))          # no lock requested, not a creation: nothing may be added
+    locking = lock_scen(True, False)
     for a in adds:
-        rr = g.reach([g.entry], edge_ok=lambda x, y, lab: not (x in fu and lab == 'T') and not (x in created and lab == 'T'))
-        guarded = a.id not in rr
-        under_fu = a.id in g.reach([y for t in fu for y, lab in g.succ[t] if lab == 'T']) and a.id not in g.reach([g.entry], edge_ok=lambda x, y, lab: not (x in fu and lab == 'T'))
-        ok = guarded and (not under_fu or g.dominated(a, asserts))
+        guarded = a.id not in plain
+        under_fu = a.id in g.reach([g.entry], edge_ok=locking)
+        ok = guarded and (not under_fu or g.dominated(a, asserts, edge_ok=locking))
         ctx.ob('C35-LOCKSET.added-only-for-locked-or-created-objects', idm, a.ast, ok,
                '' if ok else 'an object is added to cache.for_update outside `if for_update:` (with in_transaction asserted) / the created branch', node=a.ast)
     # ... and the set does not outlive the transaction that took the locks: a session object survives commit() (it is dead after rollback / release,
